@@ -17,6 +17,14 @@ pub fn check_case(c: &NetCase, obs: &mut Obs) -> Result<(), String> {
     let tr: Vec<&str> = c.tags.iter().map(|s| s.as_str()).collect();
     engine.use_tags(&tr);
     engine_rev.use_tags(&tr);
+    // the same rules through two secondary entry points: added one at a time to a Blocker, and
+    // loaded from serialized bytes by an engine that enabled its tags beforehand
+    let mut refused = vec![];
+    let incremental = incremental_blocker(&c.rules, std_opts(), &c.tags, &mut refused);
+    let bytes = build_engine(&c.rules, false, false, &res).serialize_raw().map_err(|e| format!("serialize: {:?}", e))?;
+    let mut loaded = adblock::Engine::new(true);
+    loaded.use_tags(&tr);
+    loaded.deserialize(&bytes).map_err(|e| format!("deserialize of own bytes: {:?}", e))?;
     let tags: HashSet<String> = c.tags.iter().cloned().collect();
     let parsed = parse_network(&c.rules);
     let active = active_rules(&parsed);
@@ -57,6 +65,16 @@ pub fn check_case(c: &NetCase, obs: &mut Obs) -> Result<(), String> {
         let got_rev = engine_rev.get_csp_directives(&req).map(|s| split_csp(&s, &[]));
         if got_rev != got_set {
             return Err(format!("request {:?}: csp depends on rule order / optimisation: {:?} vs {:?}", r, got_set, got_rev));
+        }
+        if let Some(b) = &incremental {
+            let got_inc = b.get_csp_directives(&req).map(|s| split_csp(&s, &[]));
+            if got_inc != spec {
+                return Err(format!("request {:?}: rules added one at a time with Blocker::add_filter give csp {:?}, expected {:?} (matching csp rules {:?})", r, got_inc, spec, csp_hits.iter().map(|p| p.line.as_str()).collect::<Vec<_>>()));
+            }
+        }
+        let got_loaded = loaded.get_csp_directives(&req).map(|s| split_csp(&s, &[]));
+        if got_loaded != spec {
+            return Err(format!("request {:?}: an engine that enabled tags {:?} and then loaded the serialized rules gives csp {:?}, expected {:?}", r, c.tags, got_loaded, spec));
         }
     }
     Ok(())
@@ -125,7 +143,7 @@ pub fn decode(t: &mut Tape) -> NetCase {
 }
 
 pub fn check(ctx: &mut Ctx) {
-    ctx.rule = "1-10 $csp= rules / @@..$csp= / blanket @@..$csp on 7 overlapping patterns with 6 directives (duplicates frequent), optional domain/party/important/tag options (1 case in 6: domain= lists of one length 1-24 over a pool of 8-47 initiators, requests from that pool), plus ordinary rules; tag subset; 1-5 requests over all request-type strings (half forced to document types). Oracle: non-document types => None; a matching active blanket exception => None; otherwise set(enabled) minus set(disabled), None when empty; compared as the set of comma-separated parts, which must be duplicate-free; the same query on an engine built from the reversed list with optimisation on must give the same set. Non-trivial = >= 2 distinct directives enabled and >= 1 exception, or a blanket exception.".into();
+    ctx.rule = "1-10 $csp= rules / @@..$csp= / blanket @@..$csp on 7 overlapping patterns with 6 directives (duplicates frequent), optional domain/party/important/tag options (1 case in 6: domain= lists of one length 1-24 over a pool of 8-47 initiators, requests from that pool), plus ordinary rules; tag subset; 1-5 requests over all request-type strings (half forced to document types). Oracle: non-document types => None; a matching active blanket exception => None; otherwise set(enabled) minus set(disabled), None when empty; compared as the set of comma-separated parts, which must be duplicate-free; the same query on an engine built from the reversed list with optimisation on must give the same set, and so must a Blocker that received the rules one at a time (add_filter) and an engine that enabled the tags first and then loaded the serialized rules. Non-trivial = >= 2 distinct directives enabled and >= 1 exception, or a blanket exception.".into();
     ctx.assumptions = vec!["which csp rules match is decided by NetworkFilter::matches; directives contain no comma (the option grammar cannot express one)".into()];
     let n = ctx.tier.pick(800_000, 6_000_000);
     drive(ctx, "csp", n, 300, &decode, &check_case);
